@@ -22,7 +22,16 @@ var resetFns []func()
 
 func OnReset(f func()) { resetFns = append(resetFns, f) }
 
+// epoch counts executions. Shim objects that outlive an execution (package-level mutexes,
+// channels, wait groups) remember the epoch of their last use and clear the state a torn-down
+// execution left behind on their first use in a later one.
+var runEpoch uint64 = 1
+
+// Epoch returns the number of the execution in progress.
+func Epoch() uint64 { return runEpoch }
+
 func resetGlobals() {
+	runEpoch++
 	for _, f := range resetFns {
 		f()
 	}
